@@ -2,3 +2,4 @@ import CbOblig.C04
 import CbOblig.C02
 import CbOblig.C20
 import CbOblig.C13
+import CbOblig.C11
